@@ -37,6 +37,7 @@ type TNode struct {
 	UPol     bool       `json:"upol,omitempty"`         // pure user Unmarshaler (constant output)
 	EPol     int        `json:"epol,omitempty"`         // equality policy: 1 always equal, 2 never equal
 	ReadOnly bool       `json:"ro,omitempty"`
+	ViaCond  bool       `json:"via_cond,omitempty"` // a Condition assembled by Cond("", op, expr) - which records a complaint - and given its keyword afterwards
 	LeftErr  bool       `json:"left_err,omitempty"` // an error left over from an earlier call is recorded in the instance
 	Shared   bool       `json:"shared,omitempty"`   // this very node occurs at more than one position: ONE instance is built and stored at each
 	Alias    int        `json:"alias,omitempty"`    // 0 native, 1 AStack, 2 *AStack, 3 SStack, 4 *SStack / same for conditions
@@ -441,13 +442,26 @@ func (n *TNode) BuildCond() stackage.Condition {
 	buildEnter()
 	defer buildLeave()
 	var c stackage.Condition
-	c.Init()
-	c.SetKeyword(n.Kw)
-	if n.Op != nil {
-		c.SetOperator(n.Op.Build())
-	}
-	if n.Expr != nil {
-		c.SetExpression(n.Expr.Build())
+	if n.ViaCond {
+		var op stackage.Operator
+		if n.Op != nil {
+			op = n.Op.Build()
+		}
+		var ex any
+		if n.Expr != nil {
+			ex = n.Expr.Build()
+		}
+		c = stackage.Cond("", op, ex)
+		c.SetKeyword(n.Kw)
+	} else {
+		c.Init()
+		c.SetKeyword(n.Kw)
+		if n.Op != nil {
+			c.SetOperator(n.Op.Build())
+		}
+		if n.Expr != nil {
+			c.SetExpression(n.Expr.Build())
+		}
 	}
 	applyOpt(n.Paren, func(b ...bool) { c.SetParen(b...) }, func(b ...bool) { c.Paren(b...) })
 	applyOpt(n.NoPad, func(b ...bool) { c.SetNoPadding(b...) }, func(b ...bool) { c.NoPadding(b...) })
